@@ -555,9 +555,135 @@ def check_C02(args):
             for j, h in enumerate(hs):
                 yield scenario_from_hist("C02-%d-%d" % (mi, j), MC_TABLES, menu, h, int_vals=rng.random() < 0.3), MC_TABLES
 
+    kst = {"dirs": 0, "kills": 0, "acked": 0, "in_flight": 0, "kills_during_insert": 0}
+
+    def post_judge(V, scenarios, traces):
+        if args.replay:
+            return
+        kill_part("C02", V, random.Random(common.seed() * 31 + 2), quick_tier(), kst)
+
+    def extra_cov(scenarios, traces):
+        return {"async_kill_directories": kst["dirs"], "async_kills": kst["kills"], "async_kill_acked_points": kst["acked"],
+                "async_kill_points_in_flight": kst["in_flight"]}
+
     return store_check(args, "C02", mc_jobs, gen, ALL_INVS, CODE_FLAGS["ArrayDup"],
-                       ["crash = loss of volatile state at a hook point (process-kill model; page cache survives)"]
-                       + BASE_ASSUMPTIONS)
+                       ["crash = loss of volatile state at a hook point (process-kill model; page cache survives)",
+                        "asynchronous part: a child process with 1-3 ms timer flushes is killed with SIGKILL at random instants, three rounds per "
+                        "directory; acknowledged = the Insert call had returned (WAL synced on write) before the kill"]
+                       + BASE_ASSUMPTIONS, post_judge=post_judge, extra_cov=extra_cov)
+
+
+def quick_tier():
+    return common.tier() == "quick"
+
+
+def kill_part(pid, V, rng, quick, st):
+    """Asynchronous SIGKILL (C02): a child process ingests points with timer-driven flushes and is
+    killed at a random instant, three times per directory; afterwards every acknowledged point
+    must be in every table that accepts it exactly once, a point in flight at most once."""
+    import signal, subprocess
+    from concurrent.futures import ThreadPoolExecutor
+    zk = common.build(("zvkill",))["zvkill"]
+    work = common.scratch(pid + "-kill")
+    tables = MC_TABLES
+    jobs = []
+    for di in range(8 if quick else 64):
+        menu = random_menu(rng, 18, ticks=(1, 9), arrays=False, nonnumeric=False)
+        jobs.append((di, menu, rng.randint(0, 10 ** 6)))
+
+    def render(p):
+        c = render_insert(p)
+        return {"id": p["id"], "ts": p["ts"], "dims": c["dims"], "vals": c["vals"]}
+
+    def one(job):
+        di, menu, seed = job
+        r = random.Random(seed)
+        d = os.path.join(work, "d%d" % di)
+        os.makedirs(d, exist_ok=True)
+        data = os.path.join(d, "data")
+        acked, inflight, kills, during = [], [], 0, 0
+        for rnd in range(3):
+            pts = menu[rnd * 6:(rnd + 1) * 6]
+            stop_after = r.randint(0, len(pts))           # acks to wait for before the kill
+            p = subprocess.Popen([zk, "-mode", "run", "-dir", data], stdin=subprocess.PIPE, stdout=subprocess.PIPE, stderr=subprocess.DEVNULL, text=True)
+            p.stdin.write(json.dumps({"tables": [t.define() for t in tables], "points": [render(x) for x in pts], "paceUs": r.choice([0, 200, 2000])}))
+            p.stdin.close()
+            begun = None
+            n_ack = 0
+            t_end = time.time() + 30
+            while time.time() < t_end:
+                line = p.stdout.readline()
+                if not line:
+                    break
+                w = line.split()
+                if w[0] == "begin":
+                    begun = int(w[1])
+                elif w[0] == "ack":
+                    acked.append(int(w[1]))
+                    begun = None
+                    n_ack += 1
+                if (w[0] == "open" and stop_after == 0) or (w[0] == "ack" and n_ack >= stop_after) or w[0] == "done":
+                    break
+            time.sleep(r.choice([0, 0, 0.001, 0.003, 0.01]))
+            p.send_signal(signal.SIGKILL)
+            # whatever the child wrote before it died
+            for line in p.stdout.read().splitlines():
+                w = line.split()
+                if w and w[0] == "begin":
+                    begun = int(w[1])
+                elif w and w[0] == "ack":
+                    acked.append(int(w[1]))
+                    begun = None
+            p.wait()
+            kills += 1
+            if begun is not None:
+                inflight.append(begun)
+                during += 1
+        v = subprocess.run([zk, "-mode", "verify", "-dir", data], input=json.dumps({"tables": [t.define() for t in tables], "expect": 0}),
+                           stdout=subprocess.PIPE, stderr=subprocess.PIPE, text=True, timeout=120)
+        rep = None
+        for line in v.stdout.splitlines():
+            if line.startswith('{"a":"Verify"'):
+                rep = json.loads(line)
+        shutil.rmtree(d, ignore_errors=True)
+        return di, menu, acked, inflight, kills, during, rep, v.stderr[:2500]
+
+    with ThreadPoolExecutor(8) as ex:
+        results = list(ex.map(one, jobs))
+    for di, menu, acked, inflight, kills, during, rep, err in results:
+        if rep is None:
+            m = re.search(r"^(?:panic|fatal error): (.*)$", err, re.M)
+            if m and ("/zenodb" in err or "/repo/" in err):
+                # the database itself goes down when it is opened on what the kills left behind
+                rp = common.save_replay(pid, "kill-d%d-recovery-panic" % di, {"kind": "async-kill", "menu": menu, "acked": acked, "in_flight": inflight, "stderr": err})
+                V.violation(rp, "after %d SIGKILLs at random instants the database panics when it is opened again and queried: %s" % (kills, m.group(1)[:200]))
+                continue
+            raise InfraError("zvkill verify produced no report for directory %d: %s" % (di, err[:600]))
+        st["dirs"] += 1
+        st["kills"] += kills
+        st["acked"] += len(acked)
+        st["in_flight"] += len(inflight)
+        by_id = {p["id"]: p for p in menu}
+        for t in tables:
+            obs = rows_to_cells(rep["tables"].get(t.name) or [])
+            exp = expected_cells(t, [by_id[i] for i in acked], len(acked), False)
+            maybe = expected_cells(t, [by_id[i] for i in inflight], len(inflight), False)
+            bad = []
+            for k in set(obs) | set(exp):
+                o, e = obs.get(k, 0), exp.get(k, 0)
+                if k[3] == 0:
+                    # _points cells are not per point: between the acknowledged ones and those plus the ones in flight
+                    if not (e <= o <= e + maybe.get(k, 0)):
+                        bad.append((k, o, e))
+                elif not (e <= o <= e + maybe.get(k, 0)) or (o > 0 and e == 0 and k not in maybe):
+                    bad.append((k, o, e))
+            if bad:
+                k, o, e = sorted(bad, key=repr)[0]
+                rp = common.save_replay(pid, "kill-d%d-%s" % (di, t.name), {"kind": "async-kill", "menu": menu, "acked": acked, "in_flight": inflight,
+                                                                         "table": t.name, "bad": [[list(x[0]), x[1], x[2]] for x in bad][:10]})
+                V.violation(rp, "after %d SIGKILLs at random instants table %s differs from the acknowledged inserts on %d cell(s), e.g. %s observed %s, "
+                                "acknowledged %s (acknowledged ids %s, in flight %s)" % (kills, t.name, len(bad), list(k), o, e, acked, inflight))
+    shutil.rmtree(work, ignore_errors=True)
 
 
 # ---------------------------------------------------------------- C03
